@@ -117,7 +117,7 @@ func initNatives() {
 	n["strings.Compare"] = native{ss_i(strings.Compare), nil}
 
 	n["strconv.Itoa"] = native{func(fr *frame, a []value) value { return strconv.Itoa(int(asInt64(a[0]))) },
-		func(fr *frame, a []value) value { return symItoa(a[0].(symv)) }}
+		func(fr *frame, a []value) value { return fr.i.R.itoaBytes(a[0].(symv), 0) }}
 	n["strconv.Atoi"] = native{func(fr *frame, a []value) value {
 		v, err := strconv.Atoi(str(a[0]))
 		if err != nil {
@@ -393,22 +393,15 @@ func fmtVerb(fr *frame, verb byte, flags string, a value) value {
 			}
 			return x
 		case 'i':
+			w := 0
 			if flags != "" {
-				w, err := strconv.Atoi(strings.TrimPrefix(flags, "0"))
-				if !strings.HasPrefix(flags, "0") || err != nil || w > 12 {
+				var err error
+				w, err = strconv.Atoi(strings.TrimPrefix(flags, "0"))
+				if !strings.HasPrefix(flags, "0") || err != nil || w > 18 {
 					fr.i.R.inconclusive("fmt flags " + flags + " on symbolic integer")
 				}
-				if fr.i.R.branch(symv{'b', "(bvslt " + x.term + " " + bvlit(0) + ")"}) {
-					fr.i.R.inconclusive("zero-padded negative symbolic integer")
-				}
-				ds := "(str.from_int (bv2nat " + x.term + "))"
-				t := ds
-				for k := w - 1; k >= 1; k-- {
-					t = fmt.Sprintf("(ite (= (str.len %s) %d) (str.++ \"%s\" %s) %s)", ds, k, strings.Repeat("0", w-k), ds, t)
-				}
-				return symv{'s', t}
 			}
-			return symItoa(x)
+			return fr.i.R.itoaBytes(x, w)
 		case 'b':
 			return symv{'s', "(ite " + x.term + " \"true\" \"false\")"}
 		}
